@@ -110,6 +110,7 @@ func runDir() string {
 //	fs-close-error:  the N-th close of a file opened for writing fails
 //	fs-read-budget:  on the N-th open, reads deliver At bytes, then fail (EIO)
 //	fs-open-error:   the N-th open fails
+//	fs-open-write-error: the N-th open for writing fails
 func fsPlan(faults []FaultSpec) *simrt.FaultPlan {
 	var p *simrt.FaultPlan
 	for _, f := range faults {
@@ -123,6 +124,8 @@ func fsPlan(faults []FaultSpec) *simrt.FaultPlan {
 			r = &simrt.FileFault{Op: "read", Nth: f.N, After: f.At}
 		case "fs-open-error":
 			r = &simrt.FileFault{Op: "open", Nth: f.N}
+		case "fs-open-write-error":
+			r = &simrt.FileFault{Op: "open-write", Nth: f.N}
 		default:
 			continue
 		}
